@@ -216,13 +216,13 @@ class Jockey(R.Leave):
 
 
 @config
-def RN(c=1, jockey=False, prio=False, pre=False, first=None, burst=None, sched=False, blockedinto=False, syscap=None, cap_=None):
+def RN(c=1, jockey=False, prio=False, pre=False, first=None, burst=None, sched=False, blockedinto=False, syscap=None, cap_=None, cap2=1, first1=None):
     if blockedinto:
         # node1 -> node2 (c=1, cap 1, reneging at node 2): a renege at node 2 frees a place for a customer blocked at node 1
         net = ciw.create_network(arrival_distributions=[arr("a1", True, burst), arr("a2", True, burst)],
-                                 service_distributions=[D("s1"), D("s2")], number_of_servers=[1, 1], queue_capacities=[INF, 1],
+                                 service_distributions=[D("s1"), D("s2")], number_of_servers=[c, 1], queue_capacities=[INF, cap2],
                                  routing=[[0.0, 1.0], [0.0, 0.0]], reneging_time_distributions=[None, D("p")],
-                                 batching_distributions=[batches(None), batches(first)])
+                                 batching_distributions=[batches(first1), batches(first)])
         return Cfg(net, {"routing": {"Customer": ("nodes", [("prob", [1, 2], [0.0, 1.0]), ("prob", [1, 2], [0.0, 0.0])])}})
     if jockey:
         net = ciw.create_network(arrival_distributions=[arr("a", True, burst), None], service_distributions=[D("s"), D("s2")],
@@ -311,7 +311,7 @@ def CCa(first=None, burst=None, p=0.5, nodes=1, prio=False, blocking=False):
 def CCw(nodes=1, prio=False, pre=False, first=None, burst=None, c=1):
     """class change while waiting"""
     pc = {"A": 0, "B": 1} if prio else {"A": 0, "B": 0}
-    flags = {"priority_changes_while_waiting": prio}
+    flags = {"priority_changes_while_waiting": prio, "class_change_waiting": True}
     ccd = {"A": {"B": D("cAB")}, "B": {"A": D("cBA")}}
     if nodes == 1:
         net = ciw.create_network(arrival_distributions={"A": [arr("aA", True, burst)], "B": [arr("aB", True, burst)]},
@@ -535,7 +535,10 @@ def GEN(topo="single", c1=1, c2=1, sched=None, cap1=None, cap2=None, syscap=None
         sd[k] = [D("s%d%s" % (j + 1, k)) for j in range(nn)]
         b1 = batches(first if k == lowest else None, batch if k == lowest else None)
         bd[k] = [b1] + [ciw.dists.Deterministic(1)] * (nn - 1)
-        if reneging:
+        if reneging == "mixed" and nn >= 2:
+            rd[k] = [D("p" + k), None] if k == names[0] else [None, D("p" + k)]
+            rd[k] = rd[k] + [None] * (nn - 2)
+        elif reneging:
             rd[k] = [D("p" + k)] + [None] * (nn - 1)
     if reneging:
         kw["reneging_time_distributions"] = rd
